@@ -661,3 +661,76 @@ Proof.
     destruct (process_in cfg dex _ acts true a Hw Ha) as (e & He & Hin).
     rewrite (act_of_rels cfg dex e a r0 Hin Hr). now apply Hq.
 Qed.
+
+(* ------------------------------------------------------------------ *)
+(* C06: the walker reaches (and creates) a directory before any entry   *)
+(* below it, for every tree, filter and dereference setting             *)
+(* ------------------------------------------------------------------ *)
+Definition seen_after (seen : list rel) (L : list (rel * ekind * bool)) : list rel :=
+  fold_left (fun s e => match snd (fst e) with EDir => fst (fst e) :: s | _ => s end) L seen.
+
+Lemma existsb_rel_in p seen : existsb (rel_eqb p) seen = true <-> In p seen.
+Proof.
+  rewrite existsb_exists. split.
+  - intros [x [Hin He]]. apply rel_eqb_eq in He. now subst.
+  - intros Hin. exists p. split; [exact Hin|apply rel_eqb_refl].
+Qed.
+
+Lemma parents_first_app A : forall seen B,
+  parents_first seen (A ++ B) = parents_first seen A && parents_first (seen_after seen A) B.
+Proof.
+  induction A as [|[[q k] d] A IH]; intros seen B; [reflexivity|].
+  cbn [app parents_first seen_after fold_left fst snd]. rewrite IH. unfold seen_after. now rewrite andb_assoc.
+Qed.
+
+Lemma seen_after_incl A : forall seen x, In x seen -> In x (seen_after seen A).
+Proof.
+  induction A as [|[[q k] d] A IH]; intros seen x Hin; [exact Hin|].
+  cbn [seen_after fold_left fst snd]. apply IH. destruct k; try exact Hin. now right.
+Qed.
+
+Lemma removelast_snoc {A} (l : list A) x : removelast (l ++ [x]) = l.
+Proof. apply removelast_last. Qed.
+
+Lemma children_parents_first keep deref r cs :
+  Forall (fun nc : name * tree => forall r seen, In (removelast r) seen ->
+            parents_first seen (sel_entries keep deref r (snd nc)) = true) cs ->
+  forall seen', In r seen' -> parents_first seen' (schildren keep deref r cs) = true.
+Proof.
+  induction 1 as [|[n c] rest Hc0 _ IHrest]; intros seen' Hr; [reflexivity|].
+  cbn [schildren flat_map fst snd]. rewrite parents_first_app. apply andb_true_iff. split.
+  - apply Hc0. rewrite removelast_snoc. exact Hr.
+  - apply IHrest. now apply seen_after_incl.
+Qed.
+
+Theorem sel_parents_first keep deref : forall t r seen,
+  In (removelast r) seen -> parents_first seen (sel_entries keep deref r t) = true.
+Proof.
+  intros t. induction t as [len|cs IH|text res IH|ft|ft] using tree_ind2; intros r seen Hin;
+    rewrite sel_entries_eq; destruct (negb (keep r _)); try reflexivity;
+    assert (existsb (rel_eqb (removelast r)) seen = true) as Hp by (now apply existsb_rel_in).
+  - cbn [node_entry fst snd parents_first]. now rewrite Hp.
+  - cbn [node_entry fst snd parents_first]. rewrite Hp. cbn [andb].
+    apply (children_parents_first keep deref r cs IH). now left.
+  - destruct deref.
+    + destruct res as [| |t']; cbn [node_entry fst snd parents_first]; try (now rewrite Hp).
+      destruct (IH t' eq_refl) as [_ Hch].
+      destruct t' as [len|cs|text' res'|ft|ft]; cbn [fst snd parents_first]; rewrite Hp; try reflexivity. cbn [andb].
+      apply (children_parents_first keep true r cs (Hch cs eq_refl)). now left.
+    + cbn [node_entry fst snd parents_first]. now rewrite Hp.
+  - cbn [node_entry fst snd parents_first]. now rewrite Hp.
+  - cbn [node_entry fst snd parents_first]. now rewrite Hp.
+Qed.
+
+(* what parents_first says about positions *)
+Theorem parents_first_spec : forall L seen A q k d B,
+  parents_first seen L = true -> L = A ++ (q, k, d) :: B ->
+  In (removelast q) seen \/ exists d', In (removelast q, EDir, d') A.
+Proof.
+  intros L seen A. revert L seen. induction A as [|[[q0 k0] d0] A IH]; intros L seen q k d B Hp E; subst L.
+  - cbn [app parents_first] in Hp. apply andb_true_iff in Hp. destruct Hp as [Hp _]. left. now apply existsb_rel_in.
+  - cbn [app parents_first] in Hp. apply andb_true_iff in Hp. destruct Hp as [_ Hp].
+    destruct (IH _ _ q k d B Hp eq_refl) as [Hin|[d' Hin]].
+    + destruct k0; try (now left). destruct Hin as [<-|Hin]; [right; exists d0; now left|now left].
+    + right. exists d'. now right.
+Qed.
